@@ -608,12 +608,17 @@ class Reader:
                     self.labels.add('operator-continuation')
                 else:
                     cont = depth > 0 or braces > 0
-            if not cont and name == 'run' and not stdin_seen and k + 1 < n and \
-                    lines[k + 1].split()[:1] == ['-stdin']:
+            if not cont and name == 'run' and not stdin_seen:
                 # help syntax program: STDIN "must appear on a separate line"
-                self.labels.add('program-stdin-on-next-line')
-                stdin_seen = True
-                cont = True
+                j = k + 1
+                while j < n and is_blank(lines[j]):
+                    j += 1
+                if j < n and lines[j].split()[:1] == ['-stdin']:
+                    if j > k + 1:
+                        raise Ambiguous('program-stdin-after-blank-lines')  # (may empty lines precede it? silent)
+                    self.labels.add('program-stdin-on-next-line')
+                    stdin_seen = True
+                    cont = True
             if not cont:
                 kind, at = _expression_kind(name, tokens)
                 if kind is not None and not is_modelled_expression(kind, all_toks[at:]):
